@@ -392,6 +392,7 @@ type e3Node struct {
 
 	// progress bookkeeping (router goroutine and driver goroutine; under run.mu)
 	lastFinH     uint64
+	finHeldAtStart map[int]map[uint64]bool // incarnation -> heights in the finalization store at its start
 	lastProgress int // router step of the last finalization by this node
 }
 
@@ -504,6 +505,18 @@ func (n *e3Node) start() (errKey, errMsg string) {
 	n.mu.Lock()
 	n.inc++
 	inc := n.inc
+	// which heights the finalization store durably holds when this incarnation starts: a
+	// finalization of such a height may not be requested again (C03 contiguity, C10)
+	held := map[uint64]bool{}
+	for h := uint64(1); h <= 64; h++ {
+		if _, _, _, _, err := n.fs.LoadFinalizationByHeight(context.Background(), h); err == nil {
+			held[h] = true
+		}
+	}
+	if n.finHeldAtStart == nil {
+		n.finHeldAtStart = map[int]map[uint64]bool{}
+	}
+	n.finHeldAtStart[inc] = held
 	n.mu.Unlock()
 	n.dead.Store(false)
 	n.smAlive.Store(false)
